@@ -115,6 +115,10 @@ type Options struct {
 	NoAutoConnack  bool
 	KeepFullEvents bool
 	AdoptFailNext  []byte // Persistence operation kinds ('S', 'D', 'L', 'l') which fail once during AdoptSession
+	// StoreFlavour: "" or "memory" (the double's own map), "volatile" (the
+	// library's in-memory Persistence behind the recording double),
+	// "filesystem" (mqtt.FileSystem on a scratch directory behind it)
+	StoreFlavour string
 }
 
 // World is one process generation of a client together with its environment.
@@ -131,6 +135,7 @@ type World struct {
 	Warn       []error
 	Fatal      error
 	AdoptPanic string // a panic inside AdoptSession (recovered), with stack
+	storeDir   string // scratch directory of a filesystem-flavoured store
 
 	Broker *refmqtt.Broker
 	Store  *Store
@@ -257,7 +262,23 @@ func New(t TB, o Options) *World {
 	if w.Broker == nil {
 		w.Broker = refmqtt.NewBroker()
 	}
-	w.Store = newStore(w, o.Store)
+	var inner mqtt.Persistence
+	flavour := o.StoreFlavour
+	switch flavour {
+	case "volatile":
+		inner = mqtt.VerifNewVolatile()
+	case "filesystem":
+		dir, err := os.MkdirTemp(os.Getenv("VERIF_SCRATCH"), "simfs-")
+		if err != nil {
+			panic("VERIF-INFRA: " + err.Error())
+		}
+		w.storeDir = dir
+		inner = mqtt.FileSystem(dir)
+	}
+	if inner == nil {
+		flavour = "memory"
+	}
+	w.Store = newStore(w, o.Store, inner, flavour)
 	w.dialDefault = DialOutcome{Kind: DialOK}
 	if o.NoAutoConnack {
 		w.ConnackPol = ConnackPolicy{Kind: ConnackHold}
@@ -658,6 +679,9 @@ func (w *World) Shutdown(budget time.Duration) (clean bool) {
 		return true
 	}
 	w.shut = true
+	if w.storeDir != "" {
+		defer os.RemoveAll(w.storeDir)
+	}
 	if failedOnce.Load() && budget > time.Second {
 		budget = time.Second
 	}
